@@ -277,6 +277,50 @@ pub fn run(tier: &str) -> Result<Report, String> {
     }
     rep.set("valid_extended_formulae", json!(fs.len()));
     rep.set("formula_label_subset_cases", json!(subsets_total));
+    // (b2) binding rules through the string entry points: every tree over a binder-focused alphabet
+    //      (two variable names, all three quantifiers, jump, one unary and one binary operator), printed;
+    //      the ill-scoped ones must be rejected, the well-scoped ones accepted, by every entry point
+    {
+        use crate::formulas::{Bi, Hy, Un};
+        use crate::trees::{TreeAlphabet, TreeGen};
+        let sv = |v: &[&str]| v.iter().map(|x| x.to_string()).collect::<Vec<_>>();
+        let alpha = TreeAlphabet { consts: vec![], props: sv(&["a"]), vars: sv(&["x", "y"]), wilds: vec![], doms: vec![], un: vec![Un::AX], bi: vec![Bi::And], quant: vec![Hy::Bind, Hy::Exists, Hy::Forall], jump: true };
+        let smax = if tier == "quick" { 5 } else { 7 };
+        let mut tg = TreeGen::new(alpha.clone());
+        let mut total = 0u64;
+        for size in 1..=smax {
+            let acc = tg.par_visit_exact(
+                size,
+                Acc::default,
+                |acc, t| {
+                    let s = t.render();
+                    let ok = t.scope_ok(&mut vec![], &env.props);
+                    let ks: Vec<usize> = if ok { vec![0, 1, 2, 3] } else { vec![0, 2] };
+                    acc.n += 1;
+                    acc.calls += ks.len() as u64 * 21;
+                    if ok {
+                        acc.valid += 1;
+                    }
+                    let bad = check_string(&env, &s, &ks, &mixed);
+                    if !bad.is_empty() {
+                        acc.nbad += 1;
+                        if acc.bad.len() < 10 {
+                            acc.bad.push(Violation { case: case(&env, &s, &ks, &mixed), what: format!("input {s:?}: {}", bad.join(" | ")), size: s.len() });
+                        }
+                    }
+                },
+                merge,
+            );
+            total += acc.n;
+            rep.evaluations += acc.calls;
+            rep.distinct_nontrivial += acc.valid;
+            rep.add_count("failing_inputs", acc.nbad);
+            let mut bad = acc.bad;
+            bad.sort_by_key(|v| v.size);
+            rep.violations.extend(bad.into_iter().take(15));
+        }
+        rep.set("binder_alphabet_trees", json!({"alphabet": alpha.describe(), "max_nodes": smax, "trees": total}));
+    }
     // (c) deterministic deep inputs
     let mut deep: Vec<String> = vec![];
     for d in [10usize, 40] {
@@ -329,7 +373,7 @@ pub fn run(tier: &str) -> Result<Report, String> {
     rep.sample(json!({"input": "!{x}: @{y}: a", "expected": "Err from every entry point (free jump target), for every k"}));
     rep.sample(json!({"input": "3{y} in %d%: ~ {y}", "labels_present": ["p"], "expected": "Err (domain d has no context set)"}));
     rep.sample(json!({"input": "3{y} in %d%: ~ {y}", "labels_present": ["p", "d"], "k": 0, "expected": "Err (needs 1 spare variable set)"}));
-    rep.rule = format!("(a) every sequence of 1..{t} tokens over {TOKENS:?} and every string of 1..{k} symbols over {CHARS:?} through all 21 string entry points (plain, dirty, multiple, extended, unsafe_ex, callback variants, lists [valid,s] / [s,valid]) on graphs with k=0,2 (k=0..3 when the grammar derives the string) spare variable sets; (b) every closed extended formula with <= {m} nodes x every subset of its required labels (sets: mixed / empty / full / colour-disjoint families) x k in {{depth-1, depth, 3}}; (c) {} deep inputs (nesting 10 and 40). Oracle: Ok iff reference parser accepts, scope rules hold, all labels present and k >= nesting depth; Err otherwise; a panic is always a violation. distinct_nontrivial = number of enumerated strings the grammar derives", deep.len());
+    rep.rule = format!("(a) every sequence of 1..{t} tokens over {TOKENS:?} and every string of 1..{k} symbols over {CHARS:?} through all 21 string entry points (plain, dirty, multiple, extended, unsafe_ex, callback variants, lists [valid,s] / [s,valid]) on graphs with k=0,2 (k=0..3 when the grammar derives the string) spare variable sets; (b) every closed extended formula with <= {m} nodes x every subset of its required labels (sets: mixed / empty / full / colour-disjoint families) x k in {{depth-1, depth, 3}}; (b2) every tree with at most 5 (thorough 7) nodes over the binder-focused alphabet {{a, x, y, AX, &, !, 3, V, @}} printed and given to all 21 entry points (ill-scoped: Err; well-scoped: Ok when k suffices); (c) {} deep inputs (nesting 10 and 40). Oracle: Ok iff reference parser accepts, scope rules hold, all labels present and k >= nesting depth; Err otherwise; a panic is always a violation. distinct_nontrivial = number of enumerated strings the grammar derives", deep.len());
     rep.assumptions.push("context sets satisfy the documented precondition (inside the unit set, independent of auxiliary variables)".into());
     Ok(rep)
 }
